@@ -250,7 +250,13 @@ func VH_C20(vm *VM, inst int) {
 		base := []c20Item{cl("p", k), cl("p", 'b'), cl("q", 'a'), cl("r", 0)}
 		pos := choice("faultpos", len(base)+1)
 		var fault c20Item
-		switch choice("fault", 4) {
+		switch choice("fault", 7) {
+		case 4:
+			fault = c20Item{kind: 4, text: "'abc"} // unterminated quoted atom: runs to the end of the text
+		case 5:
+			fault = c20Item{kind: 4, text: "\"abc"} // unterminated string
+		case 6:
+			fault = c20Item{kind: 4, text: "p(0'"} // character code literal cut short
 		case 0:
 			fault = c20Item{kind: 4, text: "p(."}
 		case 1:
